@@ -123,7 +123,11 @@ pub struct Sweep {
     pub fracs: Vec<f64>,
     pub diagrams: Vec<usize>,
     pub roundtrip: bool,
+    pub opt_diagrams: bool,
 }
+
+/// non-default solver options of the diagram sweep: (max_iter, tol)
+pub const OPTION_VARIANTS: [(Option<usize>, Option<f64>); 4] = [(Some(10), None), (Some(8), Some(1e-10)), (None, Some(1e-9)), (Some(30), Some(1e-13))];
 
 /// the whole support search for one model. `failures` = [{kind, tr, what}], kinds: critical_point | pure_t | conditions |
 /// pure_p | roundtrip | diagram
@@ -317,8 +321,72 @@ fn analyse_inner<E: Residual>(eos: &Arc<E>, sw: &Sweep) -> Value {
             }
         }
     }
+    // ---- phase diagrams with non-default solver options ("all solver options in a sane range"): the options belong to the
+    // VLE solver; the call must succeed and close with the critical point of the DEFAULT options (model: diagram_res),
+    // the states returned are the ones of the default-option diagram (same count, same temperatures)
+    let mut opt_diagrams = Vec::new();
+    if sw.opt_diagrams && cp_start.is_null() {
+        let n = 10usize;
+        let tmin = tc * 0.45f64.max(sw.fracs[0]);
+        let reference: Option<Vec<f64>> = PhaseDiagram::pure(eos, tmin, n, None, opts).ok().map(|d| d.states.iter().map(|s| s.vapor().temperature.to_reduced()).collect());
+        for (mi, tl) in OPTION_VARIANTS {
+            let mut o = SolverOptions::new();
+            if let Some(m) = mi {
+                o = o.max_iter(m);
+            }
+            if let Some(t) = tl {
+                o = o.tol(t);
+            }
+            let olabel = format!("max_iter = {mi:?}, tol = {tl:?}");
+            match PhaseDiagram::pure(eos, tmin, n, None, o) {
+                Err(e) => failures.push(json!({"kind": "diagram_options", "tr": Value::Null, "npoints": n, "options": olabel,
+                    "what": format!("PhaseDiagram::pure(T_min = {} K, npoints = {n}, SolverOptions {{ {olabel} }}) fails: {e} (with default options: {})",
+                                    tmin.to_reduced(), if reference.is_some() { "Ok" } else { "Err" })})),
+                Ok(dia) => {
+                    let st = &dia.states;
+                    let ts: Vec<f64> = st.iter().map(|s| s.vapor().temperature.to_reduced()).collect();
+                    let mut b = Vec::new();
+                    match st.last() {
+                        Some(last) if last.vapor().temperature == tc && last.vapor().density == cp.density && last.liquid().density == cp.density => {}
+                        Some(last) => b.push(format!("last state is not the critical point of the default options: T = {} K, rho = {:e} (critical {} K, {:e})",
+                            last.vapor().temperature.to_reduced(), last.vapor().density.to_reduced(), tc_r, cp.density.to_reduced())),
+                        None => b.push("empty diagram".to_string()),
+                    }
+                    for i in 1..ts.len() {
+                        if !(ts[i] > ts[i - 1]) {
+                            b.push(format!("temperature not strictly increasing at state {i}: {} then {}", ts[i - 1], ts[i]));
+                            break;
+                        }
+                    }
+                    let mut missing = 0usize;
+                    if let Some(r) = &reference {
+                        for t in r {
+                            if !ts.iter().any(|x| x == t) {
+                                missing += 1;
+                            }
+                        }
+                        for t in &ts {
+                            if !r.iter().any(|x| x == t) {
+                                b.push(format!("state at T = {t} K is not a temperature of the default-option diagram"));
+                                break;
+                            }
+                        }
+                        // an iteration limit of 10 or more is far above what the pure solver needs with a neighbouring start
+                        if missing > 0 && mi.map(|m| m >= 10).unwrap_or(true) && tl.map(|t| t >= 1e-12).unwrap_or(true) {
+                            b.push(format!("{missing} state(s) of the default-option diagram missing"));
+                        }
+                    }
+                    if !b.is_empty() {
+                        failures.push(json!({"kind": "diagram_options", "tr": Value::Null, "npoints": n, "options": olabel,
+                            "what": format!("PhaseDiagram::pure(T_min = {} K, npoints = {n}, SolverOptions {{ {olabel} }}): {}", tmin.to_reduced(), b.join("; "))}));
+                    }
+                    opt_diagrams.push(json!({"options": olabel, "states": st.len(), "missing_vs_default": missing}));
+                }
+            }
+        }
+    }
     json!({
-        "failures": failures, "points": points, "diagrams": diagrams, "cp_default": cp_default,
+        "failures": failures, "points": points, "diagrams": diagrams, "opt_diagrams": opt_diagrams, "cp_default": cp_default,
         "critical_point": {"T": tc_r, "p": cp.pressure(Contributions::Total).to_reduced(), "rho": cp.density.to_reduced()},
     })
 }
@@ -377,7 +445,7 @@ pub fn analyse_entry(e: &(String, String, usize, String), quick_grid: bool, diag
         (true, true) => FRACS_Q_QUICK.to_vec(),
         (true, false) => FRACS_Q_FULL.to_vec(),
     };
-    let sw = Sweep { fracs, diagrams: diagrams.to_vec(), roundtrip };
+    let sw = Sweep { fracs, diagrams: diagrams.to_vec(), roundtrip, opt_diagrams: true };
     let res = catch_unwind(AssertUnwindSafe(|| match fam.as_str() {
         "pcsaft" => pcsaft_of(file, *idx).map(|e| analyse(&e, &sw)),
         "saftvrmie" => saftvrmie_of(file, *idx).map(|e| analyse(&e, &sw)),
